@@ -9,6 +9,7 @@ open Iora Iora.HttpRetry Iora.Driver
 structure St where
   cfg : Cfg := {}
   client : Client := {}
+  tmo : Timeouts := {}
 
 def strOfBytes (bs : Bytes) : String := String.ofList (bs.map fun b => Char.ofNat b.toNat)
 
@@ -38,6 +39,8 @@ def parseSem (s : String) : Option Attempt :=
   | ["P"] => some { base with recvs := [.more, .capExceeded] }
   | ["V"] => some { base with recvs := [.overflow] }
   | ["S"] => some { base with recvs := [.shuttingDown] }
+  | ["O"] => some { base with recvs := [.otherErr] }                     -- receiveSync answers Cancelled (any other TransportError)
+  | ["H"] => some { base with connect := .timedOut, recvs := [.more, .complete {}] }  -- TLS handshake that never completes
   | ["D", r] => (parseResp r).map fun r => { base with recvs := [.more, .peerClosed (some r)] }
   | ["K", r, a] =>
     match parseResp r, parseBit a with
@@ -139,7 +142,51 @@ def showThreadRes (t : Thread) : String :=
 
 def idxList (n : Nat) : List Nat := List.range n
 
+/-- per attempt: the milliseconds of the timed wait that ends by its time-out (`-` if none does) -/
+def showTimedOut (st : St) (rq : Request) (n : Nat) : String :=
+  let rec go (i : Nat) (fuel : Nat) (c : Client) (acc : List String) : List String :=
+    match fuel with
+    | 0 => acc.reverse
+    | fuel + 1 =>
+      let a := rq.script i
+      let w := match timedOutWait c rq.urlOk rq.host a with
+        | some k => (match waitMs st.tmo k with
+          | some ms => toString ms
+          | none => "?")
+        | none => "-"
+      go (i + 1) fuel (executeRequest st.cfg c rq.urlOk rq.host a).1 (w :: acc)
+  let l := go 0 n st.client []
+  if l.isEmpty then "-" else ",".intercalate l
+
+def mkRequest (m : String) (b : Int) (uk : Nat) (as : List Attempt) : Request :=
+  let https := uk = 2
+  { method := m, urlOk := uk ≠ 9, host := if uk = 1 then 1 else 0, retries := b,
+    script := fun i => { scriptFn as i with https := https } }
+
+def runRequest (st : St) (rq : Request) (fn : Option String) : St × String :=
+  let r := performRequest st.cfg st.client rq
+  let fo := if r.fuelOut then " FUEL" else ""
+  -- entry points that throw when the returned response is not 2xx
+  let res : Except Exn RespInfo := match fn, r.result with
+    | some f, .ok ri =>
+      if Gen.HttpRetry.entryFailsOnNon2xx.contains f then
+        -- postStream returns nothing: it throws unless the response is 2xx (the harness prints a successful call as `ok:200`)
+        (if 200 ≤ ri.status && ri.status < 300 then .ok { ri with status := 200 } else .error .runtime)
+      else .ok ri
+    | _, x => x
+  ({ st with client := r.client },
+   s!"ev={showEvs r.evs} res={showRes res} att={r.log.length} tw={showTimedOut st rq r.log.length} {showCache r.client}{fo}")
+
 def step (st : St) : List String → St × String
+  | "call" :: fn :: budget :: urlKind :: _bodyLen :: toks =>
+    match budget.toInt?, urlKind.toNat?, parseScript toks with
+    | some b, some uk, some as =>
+      if toks.isEmpty then (st, "bad-op") else
+      match entryMethod 4 fn with
+      | some m => runRequest st (mkRequest m b uk as) (some fn)
+      | none => (st, "unknown-entry")
+    | _, _, _ => (st, "bad-op")
+  | ["srvclose", _] => (st, "ok")
   | "parm" :: sched :: threads =>
     match parseNats (if sched = "-" then [] else sched.splitOn ","), parseThreads threads with
     | some sc, some rqs =>
@@ -151,20 +198,14 @@ def step (st : St) : List String → St × String
         | none => s!"r{i}=?")
       ({ st with client := w.client }, s!"ev={evs} {rs} {showCache w.client}")
     | _, _ => (st, "bad-op")
-  | ["reset", reuse, _cap, _lease] =>
-    match parseBit reuse with
-    | some r => ({ cfg := { reuse := r }, client := {} }, "ok")
-    | none => (st, "bad-op")
+  | ["reset", reuse, _cap, lease, request, connect] =>
+    match parseBit reuse, lease.toNat?, request.toNat?, connect.toNat? with
+    | some r, some l, some rq, some cn => ({ cfg := { reuse := r }, client := {}, tmo := { request := rq, connect := cn, lease := l } }, "ok")
+    | _, _, _, _ => (st, "bad-op")
   | "req" :: m :: budget :: urlKind :: _bodyLen :: toks =>
     match ofHex m, budget.toInt?, urlKind.toNat?, parseScript toks with
     | some m, some b, some uk, some as =>
-      if toks.isEmpty then (st, "bad-op") else
-      let rq : Request := { method := strOfBytes m, urlOk := uk ≠ 9, host := if uk = 1 then 1 else 0, retries := b,
-                            script := scriptFn as }
-      let r := performRequest st.cfg st.client rq
-      let fo := if r.fuelOut then " FUEL" else ""
-      ({ st with client := r.client },
-       s!"ev={showEvs r.evs} res={showRes r.result} att={r.log.length} {showCache r.client}{fo}")
+      if toks.isEmpty then (st, "bad-op") else runRequest st (mkRequest (strOfBytes m) b uk as) none
     | _, _, _, _ => (st, "bad-op")
   | ["vclock", _] => (st, "ok")
   | ["pause", _] => (st, "ok")
